@@ -10,6 +10,8 @@ Online (icontract postcondition on ExactSolver.__call__, every call of the workl
 Driver (per class, catalogue parameters):
   api.container  list / tuple / ndarray / non-contiguous view / Fortran-ordered copy give bit-equal
                  results; permuted and duplicated points give permuted/duplicated records
+  api.order      record k of a permuted+duplicated request carries the values of point k (compared with the records of
+                 the original request; the permutation is never an involution)
   api.csv        dump() then csv + float(): every value reproduced exactly (NaN as NaN, strings as str)
   api.ctor       unknown keyword -> ValueError; a parameter without default omitted -> ValueError
 """
@@ -199,6 +201,10 @@ def run(ctx, p):
     m = len(sol)
     if not e["grid"] and m >= 2 and cheap:
         perm = rng.permutation(m)
+        for _ in range(20):          # not an involution: applying the permutation twice must not look like undoing it
+            if m < 3 or not np.array_equal(perm[perm], np.arange(m)):
+                break
+            perm = rng.permutation(m)
         dup = np.concatenate([perm, perm[: max(1, m // 3)]])
         try:
             o2 = ctx.call(s, take(ent, a, dup), t)
@@ -207,6 +213,22 @@ def run(ctx, p):
             ok = len(o2) == len(dup) and all(np.array_equal(np.asarray(o2[o2.dtype.names[j]]), cols[j]) for j in range(len(cols)))
             ctx.observe("api.container", name, ok, branch="permuted+duplicated points keep their order",
                         detail=dict(n=len(dup)))
+            # ... and the values of the point it was asked for: record k == record dup[k] of the first call (1e-10:
+            # iterative point solvers warm-start from the previous point; exactness of values is C06's subject)
+            if len(o2) == len(dup):
+                worst, wf = 0.0, None
+                for f in sol.dtype.names:
+                    if sol[f].dtype.kind != "f":
+                        continue
+                    x, y = np.asarray(sol[f], float)[dup], np.asarray(o2[f], float)
+                    sc = np.maximum(np.abs(x), np.abs(y))
+                    dd = np.abs(x - y) / np.where(sc > 0, sc, 1.0)
+                    dd = np.where(np.isnan(x) & np.isnan(y), 0.0, dd)
+                    dd = np.where(np.isnan(dd), np.inf, dd)
+                    if dd.size and float(dd.max()) > worst:
+                        worst, wf = float(dd.max()), f
+                ctx.observe("api.order", name, worst <= 1e-10, branch="record k of a permuted+duplicated request is the record of point k", measure=worst, tol=1e-10,
+                            detail=dict(n=len(dup), field=wf, order=dup.tolist(), t=t, params={k: v for k, v in d["passed"].items() if isinstance(v, (int, float, str))}))
         except SolverRaised as ex:
             ctx.observe("api.container", name, False, branch="permuted+duplicated points keep their order",
                         detail=dict(raised=str(ex)[:200]))
